@@ -8,6 +8,8 @@ import shutil
 import sys
 
 ATTRS = ['p', 'q', 'r']
+# how the model's attribute names are spelt: plain, or q as a method every class inherits a builtin version of
+SPELL = {'plain': {'p': 'p', 'q': 'q', 'r': 'r'}, 'dunder': {'p': 'p', 'q': '__repr__', 'r': 'r'}}
 
 
 def render(h, variant):
@@ -15,6 +17,7 @@ def render(h, variant):
     n = len(h['bases'])
     split = variant['split']          # classes 1..split live in hm1.py, the rest in hm2.py (0 = all in one module)
     imp = variant['imp']              # how hm2 reaches hm1: 'from' | 'import' | 'star'
+    nm = SPELL[variant.get('names', 'plain')]
     files = {}
     sites = {}
     mod_of = {}
@@ -25,12 +28,12 @@ def render(h, variant):
         lines.append('class K%d(%s):' % (i, bases))
         body = []
         for a in sorted(h['own'][i - 1]):
-            body.append(('    def %s(self):' % a, ('class', a)))
-            body.append(('        return %d' % i, None))
+            body.append(('    def %s(self):' % nm[a], ('class', a)))
+            body.append(('        return "%d"' % i, None))
         if h['selfs'][i - 1]:
             body.append(('    def init%d(self):' % i, None))
             for a in sorted(h['selfs'][i - 1]):
-                body.append(('        self.%s = %d' % (a, i), ('inst', a)))
+                body.append(('        self.%s = %d' % (nm[a], i), ('inst', a)))
         if not body:
             body.append(('    pass', None))
         return lines, body
@@ -64,7 +67,7 @@ def render(h, variant):
     return files, sites, mod_of
 
 
-def cpython_reference(root, h, mod_of):
+def cpython_reference(root, h, mod_of, nm):
     sys.path.insert(0, root)
     try:
         for m in ('hm1', 'hm2'):
@@ -88,17 +91,17 @@ def cpython_reference(root, h, mod_of):
                     getattr(c, 'init%d' % idx[c])(obj)
             inst, klass, props = {}, {}, set()
             for a in ATTRS:
-                if a in obj.__dict__:
+                if nm[a] in obj.__dict__:
                     # every class of the MRO that assigns it through self
                     inst[a] = [[idx[c], 'inst', a] for c in cls[i].__mro__ if c in idx and a in h['selfs'][idx[c] - 1]]
                 for c in cls[i].__mro__:
-                    if c in idx and a in vars(c):
+                    if c in idx and nm[a] in vars(c):
                         klass[a] = [[idx[c], 'class', a]]
                         break
             for c in cls[i].__mro__:
                 if c in idx:
-                    props |= {a for a in vars(c) if a in ATTRS}
-            props |= set(obj.__dict__)
+                    props |= {a for a in ATTRS if nm[a] in vars(c)}
+            props |= {a for a in ATTRS if nm[a] in obj.__dict__}
             out[i] = {'mro': mro, 'inst': inst, 'klass': klass, 'props': sorted(props)}
         return out
     finally:
@@ -122,7 +125,8 @@ def main():
         for f, t in files.items():
             open(os.path.join(root, f), 'w').write(t)
         try:
-            ref = cpython_reference(root, h, mod_of)
+            nm = SPELL[variant.get('names', 'plain')]
+            ref = cpython_reference(root, h, mod_of, nm)
         except Exception as e:  # noqa
             out.append({'id': cid, 'error': 'cpython: %s: %s' % (type(e).__name__, e), 'files': files})
             continue
@@ -146,9 +150,12 @@ def main():
             forms.append(('call', pre, '%s()' % k))
             forms.append(('class', pre, k))
             forms.append(('func', pre + 'def make():\n    return %s()\n' % k, 'make()'))
+            # self / cls inside the methods of a subclass that defines nothing else
+            forms.append(('self', pre + 'class Z(%s):\n    def zm(self):\n' % k, '        self'))
+            forms.append(('cls', pre + 'class Z(%s):\n    @classmethod\n    def zc(cls):\n' % k, '        cls'))
             for form, head, expr in forms:
                 project = Project([root])
-                is_class = form == 'class'
+                is_class = form in ('class', 'cls')
                 # proposals
                 src = head + expr + '.x\n'
                 ln = src.count('\n')
@@ -162,13 +169,13 @@ def main():
                 exp_names = sorted({a for a in ATTRS if a in ref[i]['klass']} if is_class else set(ref[i]['props']))
                 spec_names = sorted(vec['props'][i - 1]) if not is_class else sorted(a for k_, a in enumerate(ATTRS) if vec['csites'][i - 1][k_])
                 props.append({'cls': i, 'form': form, 'spec': spec_names, 'ref': exp_names,
-                              'missing': sorted(set(exp_names) - got) if pok else ['<assist raised>']})
+                              'missing': sorted(a for a in exp_names if nm[a] not in got) if pok else ['<assist raised>']})
                 for ai, a in enumerate(ATTRS):
                     spec_sites = vec['csites'][i - 1][ai] if is_class else vec['sites'][i - 1][ai]
                     ref_sites = ref[i]['klass'].get(a, []) if is_class else (ref[i]['inst'].get(a) or ref[i]['klass'].get(a, []))
                     if not ref_sites and not spec_sites:
                         continue
-                    src = head + expr + '.' + a + '\n'
+                    src = head + expr + '.' + nm[a] + '\n'
                     ln = src.count('\n')
                     land, lok = [], True
                     try:
